@@ -236,6 +236,7 @@ func runHarness(prog *ssa.Program, hp *ssa.Package, fn *ssa.Function, thorough b
 	in.perID = map[string]int{}
 	in.witnessMax = 4
 	in.itoaTags = map[*ArrNode]*Term{}
+	in.digitTags = map[*Term]*Term{}
 	t0 := time.Now()
 	if maxSeconds > 0 {
 		in.deadline = t0.Add(time.Duration(maxSeconds) * time.Second)
